@@ -78,7 +78,7 @@ def validate(rep, pid, sub, gen_args, heap="6g", max_violations=12, stateful=Fal
         if k:
             rep.known_hits += len(idxs)
             rep.extra.setdefault("known_finding_events", {})[fid] = len(idxs)
-            say(f"KNOWN-FINDING: property={pid} {k[0]['what']}")
+            log(f"[known] finding {fid} matched {len(idxs)} event(s) in this run")
     rep.states += st
     rep.transitions += tr
     rep.traces += matched
